@@ -498,6 +498,15 @@ type EF0 struct {
 	EIn1
 }
 
+// IU6: an unexported field declared BEFORE the embedded dig.In.
+type IU6 struct {
+	x      *T0 //nolint:unused
+	dig.In `ignore-unexported:"true"`
+	F0     *T1
+	y      []*T2 //nolint:unused
+	F1     *T2   `name:"a"`
+}
+
 type declIn struct {
 	RT     reflect.Type
 	Fields []Param
@@ -512,7 +521,7 @@ func (d declIn) fieldName(i int) string {
 }
 
 var declIns = map[string]declIn{}
-var DeclInNames = []string{"IU0", "IU1", "IU2", "IU3", "IU4", "IU5", "EE0", "EF0"}
+var DeclInNames = []string{"IU0", "IU1", "IU2", "IU3", "IU4", "IU5", "IU6", "EE0", "EF0"}
 
 func init() {
 	iu0 := []Param{{T: "T1"}, {T: "T2", Opt: true}}
@@ -522,6 +531,7 @@ func init() {
 	declIns["IU3"] = declIn{RT: reflect.TypeOf(IU3{}), Fields: []Param{{T: "T3"}, {T: "I0"}}}
 	declIns["IU4"] = declIn{RT: reflect.TypeOf(IU4{}), Fields: []Param{{IsObj: true, Decl: "IU0", Obj: iu0}, {T: "T1", Opt: true}}}
 	declIns["IU5"] = declIn{RT: reflect.TypeOf(IU5{}), Fields: []Param{{T: "T0", Group: "g", Soft: true}, {T: "T1"}}}
+	declIns["IU6"] = declIn{RT: reflect.TypeOf(IU6{}), Fields: []Param{{T: "T1"}, {T: "T2", Name: "a"}}}
 	e1 := []Param{{T: "T0"}}
 	e2 := []Param{{T: "T1", Opt: true}}
 	declIns["EIn1"] = declIn{RT: reflect.TypeOf(EIn1{}), Fields: e1}
